@@ -72,6 +72,11 @@ def none_guard(fnode, arg, allow_null_string):
                 (st.body[0].value is None or (isinstance(st.body[0].value, ast.Constant) and st.body[0].value.value is None)):
             tests = st.test.values if isinstance(st.test, ast.BoolOp) and isinstance(st.test.op, ast.Or) else [st.test]
             return any(norm(t) == "%s is None" % arg for t in tests)
+        if isinstance(st, ast.Return) and isinstance(st.value, ast.IfExp):
+            # `return None if <arg> is None else ...` / `return ... if <arg> is not None else None`
+            e = st.value
+            is_none = lambda x: isinstance(x, ast.Constant) and x.value is None
+            return (norm(e.test) == "%s is None" % arg and is_none(e.body)) or (norm(e.test) == "%s is not None" % arg and is_none(e.orelse))
         return False
     return False
 
@@ -107,6 +112,55 @@ def _none_decides(fnode, call):
     if isinstance(par, ast.Call) and call in par.args:
         return False          # handed to a function as an argument
     return True               # any other use: assume the worst
+
+
+def value_store_none_is_a_value(ctx, rule, consequence, example):
+    """No reader of the per-instance value store conflates an explicit None with 'not set' (shared by R15.g / R20.n)."""
+    n_reads = 0
+    for f in ctx.repo.all_funcs("param"):
+        src_ = ast.unparse(f.node)
+        if "_param__private.values" not in src_ and ".values.get" not in src_ and "'values'" not in src_:
+            continue
+        aliases = ctx.facts.local_aliases(f)
+        # getattr(<x>._param__private, 'values', <fallback>) is the value store too
+        via_getattr = {t.id for st in ast.walk(f.node) if isinstance(st, ast.Assign) and isinstance(st.value, ast.Call) and norm(st.value.func) == "getattr"
+                       and len(st.value.args) >= 2 and norm(st.value.args[0]).endswith("_param__private") and isinstance(st.value.args[1], ast.Constant) and st.value.args[1].value == "values"
+                       for t in st.targets if isinstance(t, ast.Name)}
+        for c in ast.walk(f.node):
+            if isinstance(c, ast.Call) and isinstance(c.func, ast.Attribute) and c.func.attr == "get" and (
+                    ctx.facts.field_of(c.func.value, aliases) == "private.values" or (isinstance(c.func.value, ast.Name) and c.func.value.id in via_getattr)):
+                n_reads += 1
+                if len(c.args) + len(c.keywords) >= 2:
+                    ctx.ok(rule, f, c, "value-store lookup with an explicit fallback (None stays a value)")
+                elif not _none_decides(f.node, c):
+                    ctx.ok(rule, f, c, "value-store lookup whose result is only passed on: nothing is decided on its being None")
+                else:
+                    ctx.fail(rule, f, c, "`%s` returns None both for 'not set on the instance' and for an explicit None: the fallback to the class default replaces a None the user assigned "
+                                            "(%s)" % (norm(c), consequence), key="%s::none-as-absent" % f.qualname,
+                             input=example)
+    ctx.require(n_reads >= 1, "no .get() read of the per-instance value store found")
+
+
+def codec_none_guards(ctx, rule, only=None):
+    """Every serialize / deserialize override maps None -- and only None -- to None before touching the value (a truthiness
+    test sends (), 0, '' and [] to null as well).  Shared by R15.d / R16.n."""
+    n = 0
+    for q in ctx.hier.parameter_classes():
+        c = ctx.repo.classes[q]
+        s, d = c.method("serialize"), c.method("deserialize")
+        if s is None or d is None or q == PARAMETER:
+            continue
+        name = q.rsplit(".", 1)[-1]
+        if only is not None and name not in only:
+            continue
+        for fn, which in ((s, "serialize"), (d, "deserialize")):
+            n += 1
+            if none_guard(fn.node, fn.params[-1], which == "deserialize"):
+                ctx.ok(rule, fn, fn.node, "%s.%s returns None for None first" % (name, which))
+            else:
+                ctx.fail(rule, fn, fn.node, "%s.%s does not map None (and only None) to None before using the value: an empty / zero value is serialized as null, or a None cannot round-trip" % (name, which),
+                         key="%s::none-guard" % fn.qualname)
+    return n
 
 
 def run(ctx):
@@ -270,29 +324,7 @@ def run(ctx):
             ctx.ok("R15.f", fn, lp[0] if lp else fn.node, "every entry of the result is produced by the parameter's %s; the subset filter is the only skip" % meth)
 
     # ---------------------------------------------------------------- R15.g
-    n_reads = 0
-    for f in ctx.repo.all_funcs("param"):
-        src_ = ast.unparse(f.node)
-        if "_param__private.values" not in src_ and ".values.get" not in src_ and "'values'" not in src_:
-            continue
-        aliases = ctx.facts.local_aliases(f)
-        # getattr(<x>._param__private, 'values', <fallback>) is the value store too
-        via_getattr = {t.id for st in ast.walk(f.node) if isinstance(st, ast.Assign) and isinstance(st.value, ast.Call) and norm(st.value.func) == "getattr"
-                       and len(st.value.args) >= 2 and norm(st.value.args[0]).endswith("_param__private") and isinstance(st.value.args[1], ast.Constant) and st.value.args[1].value == "values"
-                       for t in st.targets if isinstance(t, ast.Name)}
-        for c in ast.walk(f.node):
-            if isinstance(c, ast.Call) and isinstance(c.func, ast.Attribute) and c.func.attr == "get" and (
-                    ctx.facts.field_of(c.func.value, aliases) == "private.values" or (isinstance(c.func.value, ast.Name) and c.func.value.id in via_getattr)):
-                n_reads += 1
-                if len(c.args) + len(c.keywords) >= 2:
-                    ctx.ok("R15.g", f, c, "value-store lookup with an explicit fallback (None stays a value)")
-                elif not _none_decides(f.node, c):
-                    ctx.ok("R15.g", f, c, "value-store lookup whose result is only passed on: nothing is decided on its being None")
-                else:
-                    ctx.fail("R15.g", f, c, "`%s` returns None both for 'not set on the instance' and for an explicit None: the fallback to the class default replaces a None the user assigned "
-                                            "(serialize_parameters then emits the default instead of null)" % norm(c), key="%s::none-as-absent" % f.qualname,
-                             input="Integer(default=7, allow_None=True); obj.x = None; serialize_parameters() -> 7")
-    ctx.require(n_reads >= 1, "no .get() read of the per-instance value store found")
+    value_store_none_is_a_value(ctx, "R15.g", "serialize_parameters then emits the default instead of null", "Integer(default=7, allow_None=True); obj.x = None; serialize_parameters() -> 7")
 
     # ---------------------------------------------------------------- R15.h
     for meth in ("serialize", "deserialize"):
